@@ -10,6 +10,7 @@ import CamVerif.Proofs.GenApiLemmas
 import CamVerif.Proofs.C03Fuel
 import CamVerif.Proofs.C03Spec
 import CamVerif.Proofs.C03SpecW
+import CamVerif.Proofs.C03SpecMore
 import CamVerif.Proofs.C03Total
 import CamVerif.Proofs.C03Acyclic
 namespace CamVerif.C03
@@ -618,6 +619,221 @@ theorem swissknife_value (cx : Ctx F E) (fuel : Nat) (n : NodeId) (b : Base) (fm
     · simp only [exec, top, intValueF, intMaxF, hg]
     · cases st; simp [exec, top, intSetF, hg, runM, M.err, St.s]
 
+/-! ## The first-principles pieces of the reference semantics, characterised -/
+
+/-- **selectIndexed_spec**: the value `<pIndex>` selects is `v` exactly when either the list
+of `<ValueIndexed>` splits as `pre ++ (i, v) :: post` with no index `i` in `pre`
+(the first match in document order), or no element carries index `i` and `v` is the default. -/
+theorem selectIndexed_spec {α : Type} (l : List (Int × α)) (dflt : α) (i : Int) (v : α) :
+    selectIndexed l dflt i = v ↔
+      (∃ pre post, l = pre ++ (i, v) :: post ∧ ∀ p ∈ pre, p.1 ≠ i) ∨
+      ((∀ p ∈ l, p.1 ≠ i) ∧ v = dflt) := by
+  induction l with
+  | nil =>
+    simp only [selectIndexed, List.nil_eq, List.append_eq_nil_iff, reduceCtorEq, and_false, false_and,
+      exists_false, List.not_mem_nil, false_imp_iff, implies_true, true_and, false_or]
+    exact eq_comm
+  | cons hd tl ih =>
+    obtain ⟨j, w⟩ := hd
+    by_cases hj : j = i
+    · subst hj
+      simp only [selectIndexed, if_true]
+      constructor
+      · rintro rfl; exact .inl ⟨[], tl, rfl, by simp⟩
+      · rintro (⟨pre, post, h, hp⟩ | ⟨h, _⟩)
+        · cases pre with
+          | nil => simp at h; exact h.1
+          | cons a pre =>
+            simp only [List.cons_append, List.cons.injEq] at h
+            exact absurd (congrArg Prod.fst h.1).symm (hp a (by simp))
+        · exact absurd rfl (h (j, w) (by simp))
+    · simp only [selectIndexed, hj, if_false, ih]
+      constructor
+      · rintro (⟨pre, post, h, hp⟩ | ⟨h, hv⟩)
+        · refine .inl ⟨(j, w) :: pre, post, by simp [h], ?_⟩
+          intro p hp'
+          rcases List.mem_cons.mp hp' with rfl | hp'
+          · exact hj
+          · exact hp p hp'
+        · refine .inr ⟨?_, hv⟩
+          intro p hp'
+          rcases List.mem_cons.mp hp' with rfl | hp'
+          · exact hj
+          · exact h p hp'
+      · rintro (⟨pre, post, h, hp⟩ | ⟨h, hv⟩)
+        · cases pre with
+          | nil => simp at h; exact absurd h.1.1 hj
+          | cons a pre =>
+            simp only [List.cons_append, List.cons.injEq] at h
+            exact .inl ⟨pre, post, h.2, fun p hp' => hp p (by simp [hp'])⟩
+        · exact .inr ⟨fun p hp' => h p (by simp [hp']), hv⟩
+
+/-- **firstEntryWithValue_spec**: value `v` denotes entry `e` exactly when the entry list
+splits as `pre ++ e :: post`, `e` is an entry declared with value `v`, and everything in
+`pre` is an entry declared with a different value. -/
+theorem firstEntryWithValue_spec (cx : Ctx F E) (es : List NodeId) (v : Int) (e : NodeId) :
+    firstEntryWithValue cx es v = some e ↔
+      ∃ pre post, es = pre ++ e :: post ∧ entryValue cx e = some v ∧
+        ∀ p ∈ pre, ∃ pv, entryValue cx p = some pv ∧ pv ≠ v := by
+  induction es with
+  | nil => simp [firstEntryWithValue]
+  | cons hd tl ih =>
+    simp only [firstEntryWithValue]
+    cases hv : entryValue cx hd with
+    | none =>
+      simp only [reduceCtorEq, false_iff]
+      rintro ⟨pre, post, h, he, hp⟩
+      cases pre with
+      | nil => simp at h; rw [← h.1, hv] at he; cases he
+      | cons a pre =>
+        simp only [List.cons_append, List.cons.injEq] at h
+        obtain ⟨pv, hpv, _⟩ := hp a (by simp)
+        rw [← h.1, hv] at hpv; cases hpv
+    | some ev =>
+      simp only
+      by_cases hev : ev = v
+      · subst hev
+        simp only [if_true, Option.some.injEq]
+        constructor
+        · rintro rfl; exact ⟨[], tl, rfl, hv, by simp⟩
+        · rintro ⟨pre, post, h, he, hp⟩
+          cases pre with
+          | nil => simp at h; exact h.1
+          | cons a pre =>
+            simp only [List.cons_append, List.cons.injEq] at h
+            obtain ⟨pv, hpv, hne⟩ := hp a (by simp)
+            rw [← h.1, hv] at hpv; cases hpv; exact absurd rfl hne
+      · simp only [hev, if_false, ih]
+        constructor
+        · rintro ⟨pre, post, h, he, hp⟩
+          refine ⟨hd :: pre, post, by simp [h], he, ?_⟩
+          intro p hp'
+          rcases List.mem_cons.mp hp' with rfl | hp'
+          · exact ⟨ev, hv, hev⟩
+          · exact hp p hp'
+        · rintro ⟨pre, post, h, he, hp⟩
+          cases pre with
+          | nil => simp at h; rw [← h.1, hv] at he; cases he; exact absurd rfl hev
+          | cons a pre =>
+            simp only [List.cons_append, List.cons.injEq] at h
+            exact ⟨pre, post, h.2, he, fun p hp' => hp p (by simp [hp'])⟩
+
+/-- **i64_arith_spec**: an `i64` result is the exact integer whenever that is in range; out
+of range there is no result with overflow checks, and without them the result is the one
+in-range integer congruent to the exact one modulo 2^64. -/
+theorem i64_arith_spec (p : Profile) (x : Int) :
+    (InI64 x → i64Result p x = some x) ∧
+    (¬ InI64 x → p.overflowChecks = true → i64Result p x = none) ∧
+    (¬ InI64 x → p.overflowChecks = false →
+      ∃ r, i64Result p x = some r ∧ InI64 r ∧ (r - x) % 2 ^ 64 = 0) := by
+  refine ⟨fun h => by simp [i64Result, h], fun h hc => by simp [i64Result, h, hc], fun h hc => ?_⟩
+  refine ⟨Int.bmod x (2 ^ 64), by simp [i64Result, h, hc], ?_, ?_⟩
+  · unfold InI64
+    have h1 := @Int.le_bmod x (2 ^ 64) (by decide)
+    have h2 := @Int.bmod_lt x (2 ^ 64) (by decide)
+    constructor <;> omega
+  · have : Int.bmod x (2 ^ 64) % 2 ^ 64 = x % 2 ^ 64 := Int.bmod_emod
+    omega
+
+/-- **image_read_spec**: a read of `len` bytes at `a` yields `bs` exactly when the range
+`[a, a+len)` lies in the image and `bs` are the `len` bytes found there. -/
+theorem image_read_spec (mem : Bytes) (a : Int) (len : Nat) (bs : Bytes) :
+    imageRead mem a len = some bs ↔
+      0 ≤ a ∧ a.toNat + len ≤ mem.length ∧ bs.length = len ∧
+        ∀ i, i < len → bs[i]? = mem[a.toNat + i]? := by
+  have key : ∀ (n k : Nat) (bs : Bytes), k + n ≤ mem.length →
+      (imageBytes mem k n = some bs ↔ bs.length = n ∧ ∀ i, i < n → bs[i]? = mem[k + i]?) := by
+    intro n
+    induction n with
+    | zero => intro k bs _; cases bs <;> simp [imageBytes]
+    | succ n ih =>
+      intro k bs hk
+      have hlt : k < mem.length := by omega
+      simp only [imageBytes, List.getElem?_eq_getElem hlt, Option.map_eq_some_iff]
+      constructor
+      · rintro ⟨t, ht, rfl⟩
+        obtain ⟨hl, hi⟩ := (ih (k + 1) t (by omega)).mp ht
+        refine ⟨by simp [hl], ?_⟩
+        intro i hi'
+        cases i with
+        | zero => simp [List.getElem?_eq_getElem hlt]
+        | succ i =>
+          have := hi i (by omega)
+          simp only [List.getElem?_cons_succ, this]
+          congr 1; omega
+      · rintro ⟨hl, hi⟩
+        cases bs with
+        | nil => simp at hl
+        | cons b t =>
+          have h0 := hi 0 (by omega)
+          simp only [List.getElem?_cons_zero, Nat.add_zero, List.getElem?_eq_getElem hlt, Option.some.injEq] at h0
+          refine ⟨t, (ih (k + 1) t (by omega)).mpr ⟨by simpa using hl, ?_⟩, by rw [h0]⟩
+          intro i hi'
+          have := hi (i + 1) (by omega)
+          simp only [List.getElem?_cons_succ] at this
+          rw [this]; congr 1; omega
+  unfold imageRead
+  by_cases h : 0 ≤ a ∧ a.toNat + len ≤ mem.length
+  · simp only [h, and_self, if_true, true_and]
+    exact key len a.toNat bs h.2
+  · simp only [h, if_false, reduceCtorEq, false_iff]
+    rintro ⟨h1, h2, _⟩; exact h ⟨h1, h2⟩
+
+/-- **image_patch_spec**: storing `data` at index `k` keeps the image's length, puts `data`
+at `[k, k + |data|)` and leaves every other byte as it was. -/
+theorem image_patch_spec (mem : Bytes) (k : Nat) (data : Bytes) (h : k + data.length ≤ mem.length) :
+    (imagePatch mem k data).length = mem.length ∧
+    ∀ i, (imagePatch mem k data)[i]? =
+      if k ≤ i ∧ i < k + data.length then data[i - k]? else mem[i]? := by
+  induction mem generalizing k data with
+  | nil =>
+    have : data = [] := by cases data <;> simp at h ⊢
+    subst this; simp [imagePatch]
+  | cons m ms ih =>
+    cases k with
+    | zero =>
+      cases data with
+      | nil => simp [imagePatch]
+      | cons d ds =>
+        obtain ⟨h1, h2⟩ := ih 0 ds (by simp at h ⊢; omega)
+        refine ⟨by simp [imagePatch, h1], ?_⟩
+        intro i
+        cases i with
+        | zero => simp [imagePatch]
+        | succ i =>
+          simp only [imagePatch, List.getElem?_cons_succ, h2 i, List.length_cons]
+          simp only [Nat.zero_le, true_and, Nat.zero_add, Nat.sub_zero, Nat.add_lt_add_iff_right,
+            List.getElem?_cons_succ]
+    | succ k =>
+      obtain ⟨h1, h2⟩ := ih k data (by simp at h ⊢; omega)
+      refine ⟨by simp [imagePatch, h1], ?_⟩
+      intro i
+      cases i with
+      | zero => simp [imagePatch]
+      | succ i =>
+        simp only [imagePatch, List.getElem?_cons_succ, h2 i]
+        simp only [Nat.add_le_add_iff_right, Nat.add_right_comm k 1, Nat.add_lt_add_iff_right,
+          Nat.add_sub_add_right]
+
+/-- **image_write_spec**: a device write succeeds exactly when its range lies in the image
+and is disjoint from the refused window; then only the image changes, to the patched one. -/
+theorem image_write_spec (d d' : Dev) (a : Int) (data : Bytes) :
+    imageWrite d a data = some d' ↔
+      0 ≤ a ∧ a.toNat + data.length ≤ d.mem.length ∧
+      (d.roHi ≤ a.toNat ∨ a.toNat + data.length ≤ d.roLo) ∧
+      d' = { d with mem := imagePatch d.mem a.toNat data } := by
+  unfold imageWrite
+  by_cases h : 0 ≤ a ∧ a.toNat + data.length ≤ d.mem.length ∧
+      ¬ (a.toNat < d.roHi ∧ d.roLo < a.toNat + data.length)
+  · simp only [h, and_self, if_true, Option.some.injEq, true_and, not_false_eq_true]
+    obtain ⟨_, _, h3⟩ := h
+    constructor
+    · rintro rfl; exact ⟨by omega, rfl⟩
+    · rintro ⟨_, rfl⟩; rfl
+  · simp only [h, if_false, reduceCtorEq, false_iff]
+    rintro ⟨h1, h2, h3, _⟩
+    exact h ⟨h1, h2, by omega⟩
+
 /-! ## Meta-theorems -/
 
 /-- **fuel_mono**: a request that is answered without running out of fuel (result, final
@@ -805,6 +1021,57 @@ theorem refines_spec_partial_writes (cx : Ctx F E) (hnf : NoFormulaNodes cx) (fu
       | none => simp
       | some rb => exact writeAndCache_iff ihB ihA
 
+/-- **refines_spec_partial (limits and the remaining setters)**: on graphs without converter /
+swiss-knife nodes, `min` / `max` / `inc` of integer and float features (through `pMin` /
+`pMax` / `pInc`, the representation's range for registers, the mask's range for masked
+registers), `max_length` of string features, `set_min` / `set_max`, and
+`set_entry_by_symbolic` answer — respectively succeed with final state `s'` — exactly
+when the reference definitions in `GenApiSem` say so. -/
+theorem refines_spec_partial_limits (cx : Ctx F E) (hnf : NoFormulaNodes cx) (fuel : Nat) (n : NodeId)
+    (st : St F) (s' : S F) :
+    (∀ v, (exec cx (fuel + 1) (.intMin n) st).1 = .ok (.int v) ↔ specIntMin cx fuel n st.s = some v) ∧
+    (∀ v, (exec cx (fuel + 1) (.intMax n) st).1 = .ok (.int v) ↔ specIntMax cx fuel n st.s = some v) ∧
+    (∀ v, (exec cx (fuel + 1) (.intInc n) st).1 = .ok (.optInt v) ↔ specIntInc cx fuel n st.s = some v) ∧
+    (∀ v, (exec cx (fuel + 1) (.floatMin n) st).1 = .ok (.float v) ↔ specFloatMin cx fuel n st.s = some v) ∧
+    (∀ v, (exec cx (fuel + 1) (.floatMax n) st).1 = .ok (.float v) ↔ specFloatMax cx fuel n st.s = some v) ∧
+    (∀ v, (exec cx (fuel + 1) (.floatInc n) st).1 = .ok (.optFloat v) ↔ specFloatInc cx fuel n st.s = some v) ∧
+    (∀ v, (exec cx (fuel + 1) (.strMaxLength n) st).1 = .ok (.int v) ↔
+        specStrMaxLength cx (fuel + 1) n st.s = some v) ∧
+    (∀ v, ((exec cx (fuel + 1) (.intSetMin n v) st).1 = .ok .unit ∧ (exec cx (fuel + 1) (.intSetMin n v) st).2.s = s') ↔
+        specIntSetMin cx fuel n v st.s = some s') ∧
+    (∀ v, ((exec cx (fuel + 1) (.intSetMax n v) st).1 = .ok .unit ∧ (exec cx (fuel + 1) (.intSetMax n v) st).2.s = s') ↔
+        specIntSetMax cx fuel n v st.s = some s') ∧
+    (∀ v, ((exec cx (fuel + 1) (.floatSetMin n v) st).1 = .ok .unit ∧ (exec cx (fuel + 1) (.floatSetMin n v) st).2.s = s') ↔
+        specFloatSetMin cx fuel n v st.s = some s') ∧
+    (∀ v, ((exec cx (fuel + 1) (.floatSetMax n v) st).1 = .ok .unit ∧ (exec cx (fuel + 1) (.floatSetMax n v) st).2.s = s') ↔
+        specFloatSetMax cx fuel n v st.s = some s') ∧
+    (∀ name, ((exec cx (fuel + 1) (.enumSetByName n name) st).1 = .ok .unit ∧
+              (exec cx (fuel + 1) (.enumSetByName n name) st).2.s = s') ↔
+        specEnumSetByName cx fuel n name st.s = some s') := by
+  refine ⟨fun v => ?_, fun v => ?_, fun v => ?_, fun v => ?_, fun v => ?_, fun v => ?_, fun v => ?_,
+    fun v => ?_, fun v => ?_, fun v => ?_, fun v => ?_, fun name => ?_⟩ <;>
+    simp only [exec, top, runM_eff]
+  · exact read_iff st v (fun a b h => by injection h) (fun a h => (intMinF_iff cx hnf fuel n st.s a).mp h)
+      (fun a h => (intMinF_iff cx hnf fuel n st.s a).mpr h)
+  · exact read_iff st v (fun a b h => by injection h) (fun a h => (intMaxF_iff cx hnf fuel n st.s a).mp h)
+      (fun a h => (intMaxF_iff cx hnf fuel n st.s a).mpr h)
+  · exact read_iff st v (fun a b h => by injection h) (fun a h => (intIncF_iff cx hnf fuel n st.s a).mp h)
+      (fun a h => (intIncF_iff cx hnf fuel n st.s a).mpr h)
+  · exact read_iff st v (fun a b h => by injection h) (fun a h => (floatMinF_iff cx hnf fuel n st.s a).mp h)
+      (fun a h => (floatMinF_iff cx hnf fuel n st.s a).mpr h)
+  · exact read_iff st v (fun a b h => by injection h) (fun a h => (floatMaxF_iff cx hnf fuel n st.s a).mp h)
+      (fun a h => (floatMaxF_iff cx hnf fuel n st.s a).mpr h)
+  · exact read_iff st v (fun a b h => by injection h) (fun a h => (floatIncF_iff cx hnf fuel n st.s a).mp h)
+      (fun a h => (floatIncF_iff cx hnf fuel n st.s a).mpr h)
+  · have key := strMaxLength_iff cx hnf (fuel + 1) n st.s
+    simp only [execRec, step] at key
+    exact read_iff st v (fun a b h => by injection h) (fun a h => (key a).mp h) (fun a h => (key a).mpr h)
+  · exact intSetMinF_iff cx hnf fuel n v st.s s'
+  · exact intSetMaxF_iff cx hnf fuel n v st.s s'
+  · exact floatSetMinF_iff cx hnf fuel n v st.s s'
+  · exact floatSetMaxF_iff cx hnf fuel n v st.s s'
+  · exact enumSetByNameF_iff cx hnf fuel n name st.s s'
+
 /-- Without any restriction on the graph: wherever the reference semantics assigns a
 value, the interpreter returns exactly it (formula nodes simply have no reference value). -/
 theorem spec_values_returned (cx : Ctx F E) (fuel : Nat) (n : NodeId) (st : St F) :
@@ -911,6 +1178,27 @@ example : (valSem Ex.cx 4).int 6 Ex.st.s = some 7 := by rfl
 /-- the reference write semantics of the fan-out example: slot of node 2, registers 3 and 4 -/
 example : (setSem Ex.cx 4).int 5 9 Ex.st.s =
     some ⟨[.int 1, .int 9, .int 20, .int 30, .int 0, .int 1, .int 0, .int 9], ⟨[9, 8, 9, 10], 0, 0⟩⟩ := by rfl
+/-- limits and the remaining setters on the example graph: model answers and the reference
+definitions of `refines_spec_partial_limits` (max from value-store slot 7, register range,
+set by symbolic name; an undeclared name has no reference result and is refused) -/
+example : (exec Ex.cx 4 (.intMax 6) Ex.st).1 = .ok (.int 9) ∧ specIntMax Ex.cx 3 6 Ex.st.s = some 9 ∧
+    (exec Ex.cx 4 (.intMin 3) Ex.st).1 = .ok (.int 0) ∧ specIntMin Ex.cx 3 3 Ex.st.s = some 0 ∧
+    specIntInc Ex.cx 3 6 Ex.st.s = some (some 1) ∧
+    (exec Ex.cx 4 (.enumSetByName 7 "On") Ex.st).1 = .ok .unit ∧
+    (specEnumSetByName Ex.cx 3 7 "On" Ex.st.s).isSome = true ∧
+    specEnumSetByName Ex.cx 3 7 "Nope" Ex.st.s = none ∧
+    (exec Ex.cx 4 (.enumSetByName 7 "Nope") Ex.st).1 = .err .invalidData := by
+  refine ⟨?_, ?_, ?_, ?_, ?_, ?_, ?_, ?_, ?_⟩ <;> rfl
+/-- the first-principles pieces on concrete data -/
+example : selectIndexed [(0, "a"), (1, "b"), (1, "c")] "d" 1 = "b" ∧
+    selectIndexed [(0, "a"), (1, "b")] "d" 5 = "d" ∧
+    firstEntryWithValue Ex.cx [8, 9] 5 = some 9 ∧ firstEntryWithValue Ex.cx [8, 9] 3 = none ∧
+    i64Result Profile.dev (2 ^ 63) = none ∧ i64Result Profile.release (2 ^ 63) = some (-(2 ^ 63)) ∧
+    imageRead [7, 8, 9, 10] 1 2 = some [8, 9] ∧ imageRead [7, 8, 9, 10] 3 2 = none ∧
+    imagePatch [7, 8, 9, 10] 1 [1, 2] = [7, 1, 2, 10] ∧
+    imageWrite ⟨[7, 8, 9, 10], 2, 3⟩ 1 [1, 2] = none ∧
+    imageWrite ⟨[7, 8, 9, 10], 2, 3⟩ 0 [1, 2] = some ⟨[1, 2, 9, 10], 2, 3⟩ := by
+  refine ⟨?_, ?_, ?_, ?_, ?_, ?_, ?_, ?_, ?_, ?_, ?_⟩ <;> first | rfl | decide
 /-- the example graph is inside the scope of `refines_spec_partial` -/
 example : NoFormulaNodes Ex.cx := fun n =>
   match n with
